@@ -20,7 +20,11 @@ func NewTransport(tlscfg *tls.Config) *http.Transport {
 			Timeout:   cfg.Proxy.DialTimeout,
 			KeepAlive: cfg.Proxy.KeepAliveTimeout,
 		}).Dial,
-		TLSClientConfig: tlscfg,
+		// establishing the connection includes the TLS handshake: without
+		// a limit an upstream which accepts the TCP connection and then
+		// stays silent holds the client for good
+		TLSHandshakeTimeout: cfg.Proxy.DialTimeout,
+		TLSClientConfig:     tlscfg,
 	}
 }
 
